@@ -199,6 +199,20 @@ namespace nmtools
         return op(attribute);
     } // fwd_attribute
 
+    namespace detail
+    {
+        // NOTE: nmtools::unwrap returns by value, taking the address of its result would point to a temporary copy
+        template <typename T>
+        constexpr const auto& unwrap_ref(const T& t)
+        {
+            if constexpr (meta::is_maybe_v<T>) {
+                return *t;
+            } else {
+                return t;
+            }
+        }
+    } // namespace detail
+
     template <typename...Ts>
     constexpr auto pack_operands(const Ts&...ts)
     {
@@ -206,7 +220,7 @@ namespace nmtools
             using result_t = nmtools_tuple<meta::fwd_operand_t<meta::remove_cvref_t<decltype(unwrap(meta::declval<Ts>()))>>...>;
             using return_t = nmtools_maybe<result_t>;
             return ((has_value(ts) && ...)
-                ? return_t{nmtools_tuple{fwd_operand(unwrap(ts))...}}
+                ? return_t{result_t{fwd_operand(detail::unwrap_ref(ts))...}}
                 : return_t{meta::Nothing}
             );
         } else {
